@@ -139,7 +139,7 @@ def find_emitters(ctx, rule):
     repo = ctx.repo
     schema, extras = gaf_schema(repo, rule)
     tags_attr = extras["tags_attr"]
-    from ..core import inlined, tail_inlined, with_str_consts
+    from ..core import inline_access_aliases, inlined, tail_inlined, with_str_consts
 
     out = []
     for f0 in repo.all_funcs():
@@ -154,7 +154,7 @@ def find_emitters(ctx, rule):
         # single-return helpers that build the mandatory columns, and module-level format constants
         if any(isinstance(c, ast.Call) and (h := repo.resolve_call(f, c)) is not None and h.module is f.module and h is not f0 and any(isinstance(x, ast.Attribute) and x.attr in schema for x in ast.walk(h.node)) for c in walk_own(f.node)):
             f = inlined(repo, f)
-        f = with_str_consts(f)
+        f = inline_access_aliases(with_str_consts(f))
         recs = record_params(f, schema) | ({"self"} if f.cls == extras["class"] else set())
         # candidate 12-column templates
         for n in walk_own(f.node):
